@@ -129,9 +129,12 @@ class IPv6FlowSpec(NLRI):
         """
         prefix_value = prefix.get('prefix')
         ip, masklen = prefix_value.split('/')
-        ip_hex = netaddr.IPAddress(ip).packed
+        ip = netaddr.IPAddress(ip)
         offset = prefix.get('offset')
         masklen = int(masklen)
+        if ip.version != 6 or not 0 <= masklen <= 128 or not 0 <= offset <= masklen:
+            raise ValueError('%s offset %s is not an IPv6 prefix with an offset inside it' % (prefix_value, offset))
+        ip_hex = ip.packed
 
         # lenght
         ip_hex = ip_hex[: math.ceil(masklen / 8)]
